@@ -2,15 +2,19 @@ package main
 
 import (
 	"fmt"
+	"math/big"
+	"os"
+	"path/filepath"
+	"regexp"
 	"runtime"
+	"sort"
+	"strconv"
 	"strings"
 	"sync"
-	"math/big"
 
 	"github.com/onflow/crypto"
 )
 
-var blsR, _ = new(big.Int).SetString("73eda753299d7d483339d80809a1d80553bda402fffe5bfeffffffff00000001", 16)
 var blsP, _ = new(big.Int).SetString("1a0111ea397fe69a4b1ba7b6434bacd764774b84f38512bf6730d2a0f6b0f6241eabfffeb153ffffb9feffffffffaaab", 16)
 
 func be(n *big.Int, l int) []byte {
@@ -132,7 +136,7 @@ func cloneOrNil(b []byte) []byte {
 	if b == nil {
 		return nil
 	}
-	const pad = 24
+	const pad = 200 // room for an appended key, proof or block behind the argument
 	big := make([]byte, pad+len(b)+pad)
 	for i := range big {
 		big[i] = byte(0xC1 + 7*i)
@@ -204,3 +208,99 @@ func stable3(f func() string) string {
 		return first
 	})
 }
+
+// sourceConstants harvests the multi-limb constants written in the library's own source (the tree the harness was
+// built against, VERIF_REPO_SRC): runs of 64-bit hexadecimal literals taken four and six at a time, in both limb orders,
+// and long hexadecimal strings. A comparison against the wrong constant (the Montgomery form of one instead of one,
+// a modulus instead of a group order) goes wrong at exactly such a value and nowhere else, so these are inputs no
+// random draw finds; they are used as private keys, scalars and coordinates next to the structured ones.
+var srcConstOnce sync.Once
+var srcConsts []*big.Int
+
+func sourceConstants() []*big.Int {
+	srcConstOnce.Do(func() {
+		dir := os.Getenv("VERIF_REPO_SRC")
+		if dir == "" {
+			return
+		}
+		seen := map[string]bool{}
+		add := func(v *big.Int) {
+			if v.Sign() == 0 || v.BitLen() < 65 || v.BitLen() > 400 {
+				return
+			}
+			if k := v.Text(16); !seen[k] && len(srcConsts) < 600 {
+				seen[k] = true
+				srcConsts = append(srcConsts, v)
+			}
+		}
+		limb := regexp.MustCompile(`0x([0-9a-fA-F]{16})\b`)
+		long := regexp.MustCompile(`\b[0-9a-fA-F]{48,128}\b`)
+		gapOK := regexp.MustCompile(`^[\s,()A-Za-z_]{0,40}$`)
+		var files []string
+		for _, pat := range []string{"*.c", "*.h", "*.go"} {
+			m, _ := filepath.Glob(filepath.Join(dir, pat))
+			files = append(files, m...)
+		}
+		sort.Strings(files)
+		for _, f := range files {
+			if strings.HasSuffix(f, "_test.go") {
+				continue
+			}
+			raw, err := os.ReadFile(f)
+			if err != nil {
+				continue
+			}
+			text := string(raw)
+			idx := limb.FindAllStringSubmatchIndex(text, -1)
+			var run []uint64
+			flush := func() {
+				for _, size := range []int{4, 6} {
+					for i := 0; i+size <= len(run); i += size {
+						le, be := new(big.Int), new(big.Int)
+						for j := 0; j < size; j++ {
+							le.Or(le, new(big.Int).Lsh(new(big.Int).SetUint64(run[i+j]), uint(64*j)))
+							be.Or(be, new(big.Int).Lsh(new(big.Int).SetUint64(run[i+j]), uint(64*(size-1-j))))
+						}
+						add(le)
+						add(be)
+					}
+				}
+				run = run[:0]
+			}
+			prevEnd := -1
+			for _, m := range idx {
+				if prevEnd >= 0 && !gapOK.MatchString(text[prevEnd:m[0]]) {
+					flush()
+				}
+				v, _ := strconv.ParseUint(text[m[2]:m[3]], 16, 64)
+				run = append(run, v)
+				prevEnd = m[1]
+			}
+			flush()
+			for _, h := range long.FindAllString(text, -1) {
+				if v, ok := new(big.Int).SetString(h, 16); ok {
+					add(v)
+				}
+			}
+		}
+	})
+	return srcConsts
+}
+
+// sourceScalars: the harvested constants as scalars of F_r (reduced, non-zero), with their neighbours
+func sourceScalars() []*big.Int {
+	var out []*big.Int
+	seen := map[string]bool{}
+	for _, v := range sourceConstants() {
+		for _, d := range []int64{0, -1, 1} {
+			k := new(big.Int).Mod(new(big.Int).Add(v, big.NewInt(d)), blsR)
+			if k.Sign() != 0 && !seen[k.Text(16)] {
+				seen[k.Text(16)] = true
+				out = append(out, k)
+			}
+		}
+	}
+	return out
+}
+
+var blsR, _ = new(big.Int).SetString("73eda753299d7d483339d80809a1d80553bda402fffe5bfeffffffff00000001", 16)
